@@ -98,6 +98,13 @@ def run(c):
     if kind == 'bids':
         from rsatoolbox.io.bids import BidsLayout, BidsFile, BidsMriFile
         lay = BidsLayout('/data/bids')
+        # earlier look-ups through the same layout for the identically named file in another tree (raw / another derivative)
+        # must not influence this one (seeded change C20-m8: results cached per file name)
+        rec0 = dict(c['rec'])
+        rec0['derivative'] = None if rec0.get('derivative') else 'otherpipe'
+        f0 = BidsMriFile(bids_path(rec0), lay, None)
+        lay.find_meta_for(f0), lay.find_events_for(f0), lay.find_table_sibling_of(f0, c['desc2'], c['suffix2'])
+        lay.find_mri_sibling_of(f0, c['desc2'], c['suffix2'])
         p = bids_path(c['rec'])
         f = BidsMriFile(p, lay, None)
         got = dict(derivative=f.derivative, sub=f.sub, ses=f.ses, modality=getattr(f, 'modality', None), task=f.task, run=f.run,
@@ -196,15 +203,33 @@ def run_meadows_file(c):
             utvs = rs.randint(1, 99, size=(k, m)) / 8.0
             tasks = []
             tnames = []
+            # a later arrangement task may list the same stimuli in another order (seeded change C20-m7): the library skips such a
+            # task; loading it with its values re-aligned to the labels would be right as well, values under wrong labels are not
+            reo = int(rs.randint(1, k)) if (k >= 2 and rs.rand() < 0.5) else None
+            perm = rs.permutation(n)
+            while reo is not None and list(perm) == list(range(n)):
+                perm = rs.permutation(n)
             for i in range(k):
-                tasks.append(dict(task=dict(task_type='multiarrange', name=f'arr{i}'), stimuli=[dict(name=s) for s in stim],
-                                  rdm=utvs[i].tolist()))
+                if i == reo:
+                    # the task's own order: stimulus perm[a] at position a; its vector is the file's matrix in that order
+                    M = np.zeros((n, n))
+                    M[np.triu_indices(n, 1)] = utvs[i]
+                    M = M + M.T
+                    tasks.append(dict(task=dict(task_type='multiarrange', name=f'arr{i}'), stimuli=[dict(name=stim[a]) for a in perm],
+                                      rdm=M[np.ix_(perm, perm)][np.triu_indices(n, 1)].tolist()))
+                else:
+                    tasks.append(dict(task=dict(task_type='multiarrange', name=f'arr{i}'), stimuli=[dict(name=s) for s in stim],
+                                      rdm=utvs[i].tolist()))
                 tnames.append(f'arr{i}')
             tasks.insert(rs.randint(0, k + 1), dict(task=dict(task_type='survey', name='q'), stimuli=[], rdm=[]))
             tix = [i for i, t in enumerate(tasks) if t['task']['task_type'] == 'multiarrange']
             path = os.path.join(d, f'Meadows_exp1_v_v2_{pname}_tree.json')
             json.dump(dict(tasks=tasks), open(path, 'w'))
             want = dict(utvs=utvs.tolist(), participants=[pname] * k, tasks=tnames, tidx=tix)
+            if reo is not None:
+                keep = [i for i in range(k) if i != reo]
+                want = dict(utvs=utvs[keep].tolist(), participants=[pname] * len(keep), tasks=[tnames[i] for i in keep],
+                            tidx=[tix[i] for i in keep], alt=want)
         res = {}
         for sort in (True, False):
             r = load_rdms(path, sort=sort)
@@ -369,6 +394,8 @@ def oracle(c, o):
         w = o['want']
         conds = [s.split('.')[0] for s in o['stim']]
         n = len(conds)
+        if 'alt' in w and len(o['res']['True']['vals']) == len(w['alt']['utvs']):
+            w = w['alt']       # the reordered task was loaded: then with its values under the right labels
         for sort in ('True', 'False'):
             r = o['res'][sort]
             if r['participant'] != w['participants'] or r['task'] != w['tasks'] or r['task_index'] != w['tidx'] or r['experiment'] != 'exp1':
